@@ -244,6 +244,23 @@ func init() {
 			"point latitude = value stored by object.Point (truncation is checked in C15)",
 		},
 		Gen: genC01, Check: checkC01, Classify: classifyC01, Sweep: sweepC01,
+		Related: func(c *CaseC01) []*CaseC01 {
+			if len(c.Pts) == 0 || len(c.Pts) > 64 {
+				return nil
+			}
+			var out []*CaseC01
+			// other zooms, same points
+			out = append(out, &CaseC01{H: clamp64(c.H+1, 0, 35), V: clamp64(c.V-1, 0, 35), Pts: c.Pts})
+			// same horizontal positions, other altitudes / same altitudes, other positions; reversed order
+			a := &CaseC01{H: c.H, V: c.V}
+			b := &CaseC01{H: c.H, V: c.V}
+			for i := len(c.Pts) - 1; i >= 0; i-- {
+				p := c.Pts[i]
+				a.Pts = append(a.Pts, Pt{p.Lon, p.Lat, F64(-p.Alt.V()/2 + 1)})
+				b.Pts = append(b.Pts, Pt{F64(-p.Lon.V()), F64(-p.Lat.V()), p.Alt})
+			}
+			return append(out, a, b)
+		},
 		SweepScopes: func(tier string) []string {
 			if tier == "quick" {
 				return []string{"one third of the 36x36 zoom pairs (plus all h=v) x 25 fixed edge points", "one list of 66 004 points in which a point recurs after 66 000 different latitudes"}
